@@ -1,11 +1,19 @@
 package main
 
 import (
+	"bytes"
 	"fmt"
+	"go/ast"
 	"go/token"
 	"go/types"
+	"os"
+	"os/exec"
+	"path/filepath"
+	"runtime"
+	"strconv"
 	"sort"
 	"strings"
+	"sync"
 
 	"golang.org/x/tools/go/ssa"
 )
@@ -100,24 +108,47 @@ func runLenflow(c *Ctx, r *Report, rule string, entries []*ssa.Function, minObl 
 		depth = 8
 	}
 	e := newLenflow(c, depth)
-	queue := append([]*ssa.Function{}, entries...)
+	// entry points are independent: analyse them on all cores, each with its own
+	// engine state, then merge the obligations (a site is violated if any entry/path violates it)
+	type result struct {
+		fn  *ssa.Function
+		eng *lfEngine
+		hit bool
+	}
 	done := map[*ssa.Function]bool{}
+	queue := append([]*ssa.Function{}, entries...)
 	for len(queue) > 0 {
-		fn := queue[0]
-		queue = queue[1:]
-		if done[fn] {
-			continue
+		var batch []*ssa.Function
+		for _, fn := range queue {
+			if !done[fn] {
+				done[fn] = true
+				batch = append(batch, fn)
+			}
 		}
-		done[fn] = true
-		e.steps = 0
-		e.runEntry(fn, nil)
-		if e.budgetHit {
-			r.Rule(rule, "", minObl)
-			r.Unk(c.FnName(fn)+"|budget", fn.Pos(), "analysis budget exhausted: too many paths")
-			e.budgetHit = false
+		queue = nil
+		results := make([]result, len(batch))
+		sem := make(chan struct{}, runtime.NumCPU())
+		var wg sync.WaitGroup
+		for i, fn := range batch {
+			wg.Add(1)
+			sem <- struct{}{}
+			go func(i int, fn *ssa.Function) {
+				defer wg.Done()
+				defer func() { <-sem }()
+				w := newLenflowShared(c, depth, e)
+				w.runEntry(fn, nil)
+				results[i] = result{fn, w, w.budgetHit}
+			}(i, fn)
 		}
-		queue = append(queue, e.pending...)
-		e.pending = nil
+		wg.Wait()
+		for _, res := range results {
+			if res.hit {
+				r.Rule(rule, "", minObl)
+				r.Unk(c.FnName(res.fn)+"|budget", res.fn.Pos(), "analysis budget exhausted: too many paths")
+			}
+			e.merge(res.eng)
+			queue = append(queue, res.eng.pending...)
+		}
 	}
 	r.Rule(rule, "every index, slice (against len, not cap), make, division and contract precondition reachable from the entry points is entailed by the constraints of every path reaching it", minObl)
 	for _, key := range e.order {
@@ -171,6 +202,9 @@ func checkC05(c *Ctx, r *Report) {
 
 	checkFieldFacts(c, r)
 	checkLayerConsumption(c, r)
+	if c.Tier == "thorough" {
+		bceCrossCheck(c, r, e)
+	}
 }
 
 // checkLenflowFor runs E1 on the decoders of the named layers only (used by
@@ -421,4 +455,117 @@ func checkLayerConsumption(c *Ctx, r *Report) {
 		}
 	}
 	r.Check(ok, "ipmi.SessionSelector.NextLayerType|never itself", sel.Pos(), "next layer is a session wrapper", "the zero-length selector layer can name itself as the next layer (endless decode loop)")
+}
+
+// bceCrossCheck (thorough tier): the Go compiler's bounds-check-elimination
+// pass is an independent prover. Every bounds check it could NOT eliminate
+// inside a function E1 analysed must correspond to an E1 obligation on the
+// same source line; a compiler-kept check without an E1 obligation would mean
+// E1 silently skipped an index or slice expression. (The reverse — E1
+// obligations at sites the compiler proved — is expected and harmless: E1
+// checks against len, the compiler against cap.) The compiler only compiles
+// the packages; nothing is run.
+func bceCrossCheck(c *Ctx, r *Report, e *lfEngine) {
+	r.Rule("bce-cross-check", "every bounds check the compiler keeps (ssa/check_bce) inside an analysed function has an E1 obligation on the same line", 40)
+	cmd := exec.Command("go", "build", "-gcflags=-d=ssa/check_bce/debug=1", "./...")
+	cmd.Dir = c.Repo
+	cmd.Env = append(os.Environ(), "GOFLAGS=-mod=mod", "GOPROXY=off", "GOSUMDB=off", "GOWORK=off", "GOTOOLCHAIN=local")
+	if c.Arch != "" {
+		cmd.Env = append(cmd.Env, "GOARCH="+c.Arch)
+	}
+	out, err := cmd.CombinedOutput()
+	if err != nil && !bytes.Contains(out, []byte("Found Is")) {
+		r.Unk("go build -d=ssa/check_bce", token.NoPos, "compiler cross-check could not run: "+err.Error())
+		return
+	}
+	// lines with E1 obligations
+	have := map[string]bool{}
+	for _, key := range e.order {
+		o := e.obls[key]
+		p := c.Pos(o.Pos)
+		have[p] = true
+	}
+	// line ranges of analysed functions
+	type span struct {
+		file       string
+		from, to   int
+		name       string
+	}
+	var spans []span
+	for fn := range e.analysed {
+		if fn.Syntax() == nil {
+			continue
+		}
+		a := c.Fset.Position(fn.Syntax().Pos())
+		b := c.Fset.Position(fn.Syntax().End())
+		rel, _ := filepath.Rel(c.Repo, a.Filename)
+		spans = append(spans, span{rel, a.Line, b.Line, c.FnName(fn)})
+	}
+	n, miss, inlined := 0, 0, 0
+	seen := map[string]bool{}
+	for _, line := range strings.Split(string(out), "\n") {
+		if !strings.Contains(line, "Found IsInBounds") && !strings.Contains(line, "Found IsSliceInBounds") {
+			continue
+		}
+		parts := strings.SplitN(line, ":", 4)
+		if len(parts) < 3 {
+			continue
+		}
+		file := strings.TrimPrefix(parts[0], "./")
+		ln, _ := strconv.Atoi(parts[1])
+		key := fmt.Sprintf("%s:%d", file, ln)
+		if seen[key] {
+			continue
+		}
+		seen[key] = true
+		for _, sp := range spans {
+			if sp.file == file && ln >= sp.from && ln <= sp.to {
+				if !c.lineHasIndexing(file, ln) {
+					// a check inlined from code outside the module (e.g. bytes.Buffer.Bytes): not this module's expression
+					inlined++
+					break
+				}
+				n++
+				if have[key] {
+					r.OK(sp.name+"|"+key, token.NoPos, "compiler-kept bounds check has an E1 obligation")
+				} else {
+					miss++
+					r.Unk(sp.name+"|"+key, token.NoPos, "the compiler keeps a bounds check here but E1 recorded no obligation on this line")
+				}
+				break
+			}
+		}
+	}
+	r.Extra["bce_sites_in_analysed_functions"] = n
+	r.Extra["bce_sites_without_obligation"] = miss
+	r.Extra["bce_sites_from_inlined_foreign_code"] = inlined
+}
+
+// lineHasIndexing: does the module's source have an index, slice or range
+// expression on this line?
+func (c *Ctx) lineHasIndexing(relFile string, line int) bool {
+	found := false
+	for _, p := range c.ModulePackages() {
+		for _, f := range p.Syntax {
+			pos := c.Fset.Position(f.Pos())
+			rel, _ := filepath.Rel(c.Repo, pos.Filename)
+			if rel != relFile {
+				continue
+			}
+			ast.Inspect(f, func(n ast.Node) bool {
+				if n == nil {
+					return false
+				}
+				switch n.(type) {
+				case *ast.IndexExpr, *ast.SliceExpr, *ast.RangeStmt:
+					a, b := c.Fset.Position(n.Pos()).Line, c.Fset.Position(n.End()).Line
+					if a <= line && line <= b {
+						found = true
+					}
+				}
+				return true
+			})
+		}
+	}
+	return found
 }
